@@ -134,3 +134,6 @@ func (w *FaultWriter) Write(p []byte) (int, error) {
 	w.Buf = append(w.Buf, p...)
 	return len(p), nil
 }
+
+// Faulted reports whether the injected read fault was delivered to the caller.
+func (s *Source) Faulted() bool { return s.failed }
